@@ -42,9 +42,12 @@ type world struct {
 // worldSanitize, when set, gives the next worlds a sanitizer (scenarios that race on names the sanitizer changes)
 var worldSanitize *tally.SanitizeOptions
 
+// worldSeparator, when not empty, is the Separator option of the worlds created while it is set
+var worldSeparator string
+
 func newWorld(cached bool, interval time.Duration, shards uint, closable bool) *world {
 	w := &world{cached: cached, expected: map[string]int64{}}
-	opts := tally.ScopeOptions{OmitCardinalityMetrics: true, SanitizeOptions: worldSanitize}
+	opts := tally.ScopeOptions{OmitCardinalityMetrics: true, SanitizeOptions: worldSanitize, Separator: worldSeparator}
 	if cached {
 		w.recC = newRecCached()
 		if closable {
